@@ -30,6 +30,66 @@ def has_quantifier(fs):
   return any(walk(f) for f in fs)
 
 
+_NLMUL = z3.Function('nl!mul', z3.RealSort(), z3.RealSort(), z3.RealSort())
+_NLDIV = z3.Function('nl!div', z3.RealSort(), z3.RealSort(), z3.RealSort())
+_NLMULI = z3.Function('nl!muli', z3.IntSort(), z3.IntSort(), z3.IntSort())
+
+
+def _is_num(t):
+  return z3.is_rational_value(t) or z3.is_int_value(t) or (z3.is_app(t) and t.decl().kind() == z3.Z3_OP_TO_REAL and z3.is_int_value(t.arg(0)))
+
+
+def abstract_nl(fs):
+  """replace every NON-LINEAR product / quotient (two or more non-numeral factors, non-numeral divisor) by an application of an
+  uninterpreted function.  The abstraction only forgets facts about * and /, so `unsat` of the abstracted query implies `unsat`
+  of the original one (sound for discharging; `sat` / `unknown` of the abstraction mean nothing).  -> (formulas, changed?)"""
+  cache = {}
+  changed = [False]
+
+  def walk(t):
+    k = t.get_id()
+    if k in cache:
+      return cache[k]
+    if z3.is_quantifier(t):
+      nv = t.num_vars()
+      cs = [z3.Const('nl!v%d!%s' % (i, t.var_name(i)), t.var_sort(i)) for i in range(nv)]
+      body = walk(z3.substitute_vars(t.body(), *reversed(cs)))
+      pats = []
+      for i in range(t.num_patterns()):
+        pt = t.pattern(i)
+        pats.append(z3.MultiPattern(*[walk(z3.substitute_vars(pt.arg(j), *reversed(cs))) for j in range(pt.num_args())])
+                    if pt.num_args() > 1 else walk(z3.substitute_vars(pt.arg(0), *reversed(cs))))
+      r = (z3.ForAll if t.is_forall() else z3.Exists)(cs, body, patterns=pats) if pats else (z3.ForAll if t.is_forall() else z3.Exists)(cs, body)
+    elif z3.is_app(t):
+      ch = [walk(c) for c in t.children()]
+      dk = t.decl().kind()
+      if dk == z3.Z3_OP_MUL:
+        nums = [c for c in ch if _is_num(c)]
+        oth = [c for c in ch if not _is_num(c)]
+        if len(oth) >= 2:
+          changed[0] = True
+          f = _NLMUL if t.sort() == z3.RealSort() else _NLMULI
+          acc = oth[0]
+          for c in oth[1:]:
+            acc = f(acc, c)
+          for c in nums:
+            acc = c * acc
+          r = acc
+        else:
+          r = t.decl()(*ch) if ch else t
+      elif dk == z3.Z3_OP_DIV and not _is_num(ch[1]):
+        changed[0] = True
+        r = _NLDIV(ch[0], ch[1])
+      else:
+        r = t.decl()(*ch) if ch else t
+    else:
+      r = t
+    cache[k] = r
+    return r
+  out = [walk(f) for f in fs]
+  return out, changed[0]
+
+
 def prove(assumptions, goal, use_theory=True, timeout_ms=None, extra_axioms=(), axioms_only=None):
   """conjunctive goals are split into one query per conjunct (smaller, more stable queries)"""
   if z3.is_true(goal):
@@ -93,6 +153,19 @@ def prove1(assumptions, goal, use_theory=True, timeout_ms=None, extra_axioms=(),
   else:
     s, axs, r = last
     res = Result('unknown', 'z3', time.time() - t0, reason=s.reason_unknown() if r == z3.unknown else 'sat on a subset of the axioms only')
+    # last resort: the same query with non-linear products abstracted to uninterpreted functions (sound for `unsat` only)
+    try:
+      fs, ch = abstract_nl(base + [z3.Not(goal)])
+    except Exception:
+      ch = False
+    if ch:
+      s2 = z3.Solver()
+      s2.set(timeout=max(500, budget // 4))
+      s2.add(*fs)
+      s2.add(*[a.formula for a in full])
+      if s2.check() == z3.unsat:
+        res = Result('discharged', 'z3 (non-linear terms abstracted)', time.time() - t0)
+        last = (s2, full, z3.unsat)
   s, axs, r = last
   res.axioms = [a.name for a in axs]
   res.smt2 = None
